@@ -57,8 +57,23 @@ def make_series(d):
     return x
 
 
+def load_fixture(name):
+    """The repository's own pickled test data (single: (359,4) array; multi: list of 10 series)."""
+    import os
+    import pickle
+    root = os.environ.get("FAST_TICC_REPO", "/repo")
+    fn = {"single": "single_trajectory_features.pkl", "multi": "multiple_trajectory_features.pkl"}[name]
+    with open(os.path.join(root, "tests", "test_data", fn), "rb") as f:
+        return pickle.load(f)
+
+
 def make_data(d):
     """Single series (T int) or list of series (T list)."""
+    if d.get("gen") == "fixture":
+        data = load_fixture(d["name"])
+        if isinstance(data, list):
+            return [np.asarray(x, dtype=np.float64) for x in data[:int(d.get("nseries", len(data)))]]
+        return np.asarray(data, dtype=np.float64)
     if isinstance(d["T"], (list, tuple)):
         out = []
         for i, t in enumerate(d["T"]):
